@@ -1171,7 +1171,16 @@ pub fn mono(genv: GlobalTypeEnv, file: core::File) -> (MonoFile, GlobalMonoEnv) 
     }
 
     // Process all queued instances
+    #[cfg(goml_verif)]
+    let mut verif_instances = 0usize;
     while let Some((orig_name, s, spec_name)) = ctx.work.pop_front() {
+        #[cfg(goml_verif)]
+        {
+            verif_instances += 1;
+            if verif_instances > 20_000 {
+                panic!("goml_verif: monomorphisation generated more than 20000 instances");
+            }
+        }
         // Limit immutable borrow scope to clone necessary pieces
         let (orig_params, orig_ret, orig_body) = {
             let ofn = ctx
